@@ -263,9 +263,20 @@ static vsender build_job(World& W, int j)
         {
             auto on = ex::continues_on(std::move(s), sched_for(W, hop));
             int pool = hop.pool;
-            s = vsender(ex::bulk(std::move(on), 24, [&W, pool, j, hi](int) {
+            // the chunk tasks of a bulk on a hinted scheduler carry that hint: under a static policy every index runs on the hinted worker
+            int want_worker = ((W.c->pools[static_cast<std::size_t>(pool)].policy == 3 || W.c->pools[static_cast<std::size_t>(pool)].policy == 4) && hop.prio == 0) ? hop.hint : -1;
+            s = vsender(ex::bulk(std::move(on), 24, [&W, pool, j, hi, want_worker](int) {
                 if (static_cast<int>(pika::threads::detail::get_thread_pool_num_tss()) != pool)
                     fail_now("wrong_pool", "job " + std::to_string(j) + " hop " + std::to_string(hi) + " (bulk): an index ran on pool " + std::to_string(pika::threads::detail::get_thread_pool_num_tss()) + ", expected " + std::to_string(pool));
+                if (want_worker >= 0)
+                {
+                    W.hinted_static_phases.fetch_add(1);
+                    if (static_cast<int>(pika::get_local_worker_thread_num()) != want_worker)
+                        fail_now("hint_not_honoured", "job " + std::to_string(j) + " hop " + std::to_string(hi) + " (bulk on a scheduler with hint " + std::to_string(want_worker) +
+                                ", static policy, normal priority): an index ran on local worker " + std::to_string(pika::get_local_worker_thread_num()));
+                }
+                // (long enough that the other chunk tasks of the bulk get to take indices as well)
+                { struct timespec a, b; clock_gettime(CLOCK_MONOTONIC, &a); do { clock_gettime(CLOCK_MONOTONIC, &b); } while ((b.tv_sec - a.tv_sec) * 1000000000ll + (b.tv_nsec - a.tv_nsec) < 20000); }
                 W.phases_checked.fetch_add(1);
             }));
             break;
